@@ -32,7 +32,7 @@ ASSUMPTIONS = ["the two runs keep the same relative placement of output director
                "comment holding its own path relative to the definition root)",
                "byte differences between regenerated and shipped core_defs.py are reported as information (formatter versions may "
                "differ); the semantic signature must be equal"]
-REQUIRE = {"combined_recompiled_through_cli": 8, "outputs_compiled_alone": 60, "compiled_into_used_directory": 30, "closures_compiled_twice": 25, "output_files_compared": 150, "combined_roundtrips": 25, "core_defs_classes_compared": 50}
+REQUIRE = {"compiled_with_relative_paths": 12, "combined_recompiled_through_cli": 8, "outputs_compiled_alone": 60, "compiled_into_used_directory": 30, "closures_compiled_twice": 25, "output_files_compared": 150, "combined_roundtrips": 25, "core_defs_classes_compared": 50}
 CASE_TIMEOUT = 300
 OUTS = ["out.py", "out.h", "out.js", "out.m", "out_combined.yaml", "out.txt"]
 
@@ -125,6 +125,24 @@ def run_case(case, tier):
                     i = next((k for k in range(min(len(la), len(lb))) if la[k] != lb[k]), min(len(la), len(lb)))
                     V.append({"mech": f"outputs_differ_through_symlink:{f.split('.')[-1]}", "detail": f"{f} line {i + 1}: {la[i:i + 1]} vs {lb[i:i + 1]}"})
                     break
+        # the same closure compiled with RELATIVE paths (definition file and an output directory with a directory component,
+        # as in the repository's own build scripts): the bytes written do not depend on how the paths were spelled
+        if case["n"] % 2 == 0:
+            rel_cwd = a.root.parent.parent
+            rel_out = Path("relout") / "gen"
+            (rel_cwd / rel_out).mkdir(parents=True)
+            rcr, txtr = L.compile_closure(Path(a.root.parent.name) / a.root.name, rel_out, name="out", langs=("py", "c", "js", "mat", "combined"),
+                                          cli=True, cwd=str(rel_cwd), hashseed="4")
+            if rcr != 0:
+                V.append({"mech": "compile_failed_with_relative_paths:" + str(L.classify_compile_failure(rcr, txtr)), "detail": txtr[-300:]})
+            else:
+                C["compiled_with_relative_paths"] = 1
+                for f in ("out.py", "out.h", "out.js", "out.m", "out_combined.yaml"):
+                    if (rel_cwd / rel_out / f).read_bytes() != (a.out / f).read_bytes():
+                        la, lb = (a.out / f).read_text(errors="replace").splitlines(), (rel_cwd / rel_out / f).read_text(errors="replace").splitlines()
+                        i = next((k for k in range(min(len(la), len(lb))) if la[k] != lb[k]), min(len(la), len(lb)))
+                        V.append({"mech": f"outputs_differ_with_relative_paths:{f.split('.')[-1]}", "detail": f"{f} line {i + 1}: {la[i:i + 1]} vs {lb[i:i + 1]}"})
+                        break
         # each output asked for on its own (CLI, one flag): what else is generated in the same call has no say in it
         for lang, f in (("c", "out.h"), ("mat", "out.m"), ("js", "out.js"), ("py", "out.py"), ("combined", "out_combined.yaml"))[case["n"] % 2::2]:
             od = work / "solo" / lang
